@@ -297,6 +297,7 @@ type Machine struct {
 	varBound      map[string]int
 	syncMaps      map[*Cell]*MapObj
 	syncPools     map[*Cell][]Val
+	builders      map[*Cell]*StrV
 	taintedSlices []*ArrObj
 	prefix        []int
 	pos           int
@@ -432,6 +433,7 @@ func (m *Machine) resetPath(prefix []int) {
 	m.fileContent, m.fileSet = nil, false
 	m.syncMaps = nil
 	m.syncPools = nil
+	m.builders = nil
 	m.multi = nil
 	m.pcSat = true
 	m.prefix = append([]int(nil), prefix...)
